@@ -395,6 +395,27 @@ func c14EnumerateStream(tier string, s c14Stream, emit explore.Emit) {
 			}
 			corrupt(fmt.Sprintf("field-count of row %d set to %s (%d)", r, fc.n, fc.v), bad, r, true)
 		}
+		// structurally well-formed tuples of the wrong width: an extra field / a missing field
+		{
+			extra := append([]byte(nil), stream[:rowEnds[r+1]]...)
+			binary.BigEndian.PutUint16(extra[start:], uint16(len(s.Table)+1))
+			extra = append(extra, 0, 0, 0, 1, 'x')
+			extra = append(extra, stream[rowEnds[r+1]:]...)
+			corrupt(fmt.Sprintf("row %d carries one well-formed field more than the table has columns", r), extra, r, true)
+			extraNull := append([]byte(nil), stream[:rowEnds[r+1]]...)
+			binary.BigEndian.PutUint16(extraNull[start:], uint16(len(s.Table)+1))
+			extraNull = append(extraNull, 0xff, 0xff, 0xff, 0xff)
+			extraNull = append(extraNull, stream[rowEnds[r+1]:]...)
+			corrupt(fmt.Sprintf("row %d carries an extra NULL field", r), extraNull, r, true)
+			if len(s.Table) > 1 && !s.Nulls[r*len(s.Table)+len(s.Table)-1] {
+				// drop the last field of the row
+				lastLen := len(c14Types[s.Table[len(s.Table)-1]].Enc(r)) + 4
+				fewer := append([]byte(nil), stream[:rowEnds[r+1]-lastLen]...)
+				binary.BigEndian.PutUint16(fewer[start:], uint16(len(s.Table)-1))
+				fewer = append(fewer, stream[rowEnds[r+1]:]...)
+				corrupt(fmt.Sprintf("row %d lacks its last field", r), fewer, r, true)
+			}
+		}
 		// field length corruptions: first non-NULL field of the row
 		off := start + 2
 		for c := range s.Table {
